@@ -104,16 +104,20 @@ pub fn ref_sysv_hash(name: &[u8]) -> u32 {
 /// h(p ++ s) = h(p) * 33^4 + S(s) mod 2^32, and 33 is invertible).  Used to place symbols whose hash, hence
 /// whose chain word, sits at a boundary value (0, 1, all-ones, ...) in well-formed tables.
 pub fn gnu_preimage(r: &mut Rng, target: u32) -> Option<Vec<u8>> {
+    gnu_preimage_from(r, 5381, target)
+}
+
+/// ... continuing from hash state `start` (the state after some prefix): 8 letters that bring the hash to `target`
+pub fn gnu_preimage_from(r: &mut Rng, start: u32, target: u32) -> Option<Vec<u8>> {
     use std::collections::HashMap;
-    use std::sync::OnceLock;
-    static FWD: OnceLock<HashMap<u32, [u8; 4]>> = OnceLock::new();
-    let fwd = FWD.get_or_init(|| {
-        let mut m = HashMap::with_capacity(460_000);
+    let step4 = |h0: u32, w: &[u8; 4]| w.iter().fold(h0, |h, c| (h << 5).wrapping_add(h).wrapping_add(*c as u32));
+    let fwd = {
+        let mut m: HashMap<u32, [u8; 4]> = HashMap::with_capacity(460_000);
         for a in b'a'..=b'z' { for b in b'a'..=b'z' { for c in b'a'..=b'z' { for d in b'a'..=b'z' {
-            m.insert(ref_gnu_hash(&[a, b, c, d]), [a, b, c, d]);
+            m.insert(step4(start, &[a, b, c, d]), [a, b, c, d]);
         } } } }
         m
-    });
+    };
     let m4: u32 = 33u32.wrapping_pow(4);
     let mut inv: u32 = 1;                               // Newton iteration for m4^-1 mod 2^32
     for _ in 0..6 { inv = inv.wrapping_mul(2u32.wrapping_sub(m4.wrapping_mul(inv))); }
@@ -127,7 +131,6 @@ pub fn gnu_preimage(r: &mut Rng, target: u32) -> Option<Vec<u8>> {
         if let Some(pfx) = fwd.get(&need) {
             let mut name = pfx.to_vec();
             name.extend_from_slice(&sfx);
-            debug_assert_eq!(ref_gnu_hash(&name), target);
             return Some(name);
         }
     }
@@ -273,16 +276,51 @@ pub fn hash(r: &mut Rng, n: u64, x: &mut Exec, sink: &mut Sink, which: &str) {
             sink.run(x, &json!({"op": if which == "gnu" { "gnu_hash" } else { "sysv_hash" }, "name": bytes_val(&nm)}));
         }
     }
+    // SysV: link structures at scale - a cycle among the LAST symbols of a table of 257 / 4097 / 4100 / 65537 symbols
+    // (a walk bounded by anything smaller than the chain count, or by a fixed-size visited set, does not end)
+    if which == "sysv" {
+        for nsym in [257usize, 4097, 4100, 65537] {
+            let class = *r.pick(&[32u64, 64]);
+            let es = *r.pick(&ES_VALUES);
+            let little = is_little(es);
+            let symsz = if class == 32 { 16 } else { 24 };
+            let symtab = vec![0u8; nsym * symsz];                       // every symbol unnamed (st_name = 0)
+            let strtab = b"\0a\0".to_vec();
+            let nbucket = *r.pick(&[1u32, 2, 3]);
+            let mut t = Vec::new();
+            put(&mut t, nbucket as u64, 4, little); put(&mut t, nsym as u64, 4, little);
+            for _ in 0..nbucket { put(&mut t, nsym as u64 - 1, 4, little); }
+            for i in 0..nsym {
+                let nx = if i == nsym - 1 { nsym - 2 } else if i == nsym - 2 { if r.chance(1, 2) { nsym - 1 } else { nsym - 2 } } else { 0 };
+                put(&mut t, nx as u64, 4, little);
+            }
+            sink.run(x, &json!({"op":"buf","slot":"h","bytes":bytes_val(&t)}));
+            sink.run(x, &json!({"op":"buf","slot":"sy","bytes":bytes_val(&symtab)}));
+            sink.run(x, &json!({"op":"buf","slot":"st","bytes":bytes_val(&strtab)}));
+            for q in [&b"a"[..], b"zz", b""] {
+                sink.run(x, &json!({"op":"sysv_find","class":class,"es":es,"hashslot":"h","symslot":"sy","strslot":"st",
+                    "name":bytes_val(q),"wf":false,"first":1,"big":true}));
+            }
+        }
+    }
     for it in 0..n {
         let class = *r.pick(&[32u64, 64]);
         let es = *r.pick(&ES_VALUES);
         let little = is_little(es);
         // the first tables of every shard (and 1 in 8 later) carry names whose hashes sit at the boundaries of the
         // lookup's arithmetic; they come early in the symbol order so that other names follow them in their chains
-        let special: Vec<Vec<u8>> = if it < 8 || r.chance(1, 8) { boundary_names(r, which, it) } else { vec![] };
+        // (GNU, every fourth of them instead: two names A, S adjacent in the string table such that the NUL-containing
+        //  query "A\0S" has the very hash of A - a comparison that looks at the table's bytes without minding the NUL
+        //  inside the query takes it for A)
+        let adjacent = which == "gnu" && (it % 4 == 1 && it < 12 || r.chance(1, 16));
+        let special: Vec<Vec<u8>> = if adjacent {
+            let a: Vec<u8> = (0..r.range(1, 6)).map(|_| b'a' + (r.next() % 26) as u8).collect();
+            let mut a0 = a.clone(); a0.push(0);
+            match gnu_preimage_from(r, ref_gnu_hash(&a0), ref_gnu_hash(&a)) { Some(sfx) => vec![a, sfx], None => vec![] }
+        } else if it < 8 || r.chance(1, 8) { boundary_names(r, which, it) } else { vec![] };
         let nsyms = (match r.below(5) { 0 => r.range(1, 3), 1 => r.range(20, 60), _ => r.range(2, 12) } as usize).max(if special.is_empty() { 0 } else { special.len() + 4 });
         let mut names: Vec<Vec<u8>> = vec![vec![]];
-        let special_absent: Option<Vec<u8>> = if special.len() > 1 && r.chance(1, 2) { Some(special[1].clone()) } else { None };
+        let special_absent: Option<Vec<u8>> = if !adjacent && special.len() > 1 && r.chance(1, 2) { Some(special[1].clone()) } else { None };
         for (i, sp) in special.iter().enumerate() {
             if i == 1 && special_absent.is_some() { continue; }
             names.push(sp.clone());
@@ -311,7 +349,7 @@ pub fn hash(r: &mut Rng, n: u64, x: &mut Exec, sink: &mut Sink, which: &str) {
         let (table, first);
         if which == "gnu" {
             let symoffset = if nspecial > 0 { 1 } else { r.range(1, (nsyms as u64).min(4)) as usize };
-            let nbucket = if nspecial > 0 { r.range(1, 3) as u32 } else { r.range(1, (nsyms as u64).max(2)) as u32 };
+            let nbucket = if adjacent { 1 } else if nspecial > 0 { r.range(1, 3) as u32 } else { r.range(1, (nsyms as u64).max(2)) as u32 };
             let mx = if r.chance(1, 4) { 7 } else { 3 };
             let nbloom = 1u32 << r.below(mx);
             let shift = if r.chance(1, 3) { r.below(32) } else { *r.pick(&[0u64, 5, 6, 26, 31]) } as u32;
@@ -328,6 +366,7 @@ pub fn hash(r: &mut Rng, n: u64, x: &mut Exec, sink: &mut Sink, which: &str) {
         // unhashed (gnu) names before `first` are absent from the table's point of view unless repeated later
         if use_pair && !both_present { absent.push(pair.1.clone()); }
         if let Some(sa) = special_absent { absent.push(sa); }
+        if adjacent && special.len() == 2 { let mut q = special[0].clone(); q.push(0); q.extend(&special[1]); absent.push(q); }
         for _ in 0..3 { absent.push(gen_name(r)); }
         absent.push(vec![]);
         let mut wf = !strtab_cut;
@@ -387,6 +426,38 @@ pub fn hash(r: &mut Rng, n: u64, x: &mut Exec, sink: &mut Sink, which: &str) {
         for q in qs.iter() {
             sink.run(x, &json!({"op": if which == "gnu" { "gnu_find" } else { "sysv_find" }, "class":class,"es":es,
                 "hashslot":"h","symslot":"sy","strslot":"st","name":bytes_val(q),"wf":wf,"first":first}));
+        }
+        // queries with an embedded NUL: "name\0suffix" is not the name of any symbol (a C string ends at its first NUL),
+        // even when - GNU - the suffix is chosen so that the whole query has the very hash of "name"
+        for _ in 0..2 {
+            if names.len() < 2 { break; }
+            let nm = names[r.range(1, names.len() as u64 - 1) as usize].clone();
+            let mut q = nm.clone(); q.push(0);
+            if which == "gnu" {
+                if let Some(sfx) = gnu_preimage_from(r, ref_gnu_hash(&q), ref_gnu_hash(&nm)) { q.extend(sfx); } else { q.extend(b"x"); }
+            } else { q.extend(gen_name(r)); }
+            sink.run(x, &json!({"op": if which == "gnu" { "gnu_find" } else { "sysv_find" }, "class":class,"es":es,
+                "hashslot":"h","symslot":"sy","strslot":"st","name":bytes_val(&q),"wf":wf,"first":first}));
+        }
+        // queries that ALIAS the string table: the name passed in is a sub-slice of the table's own buffer - a whole
+        // name, a proper prefix of a name (same start, shorter) and a proper suffix (later start, same end)
+        if !strtab_cut {
+            let (_, _, offs) = build_symtab(&names, class, little, &mut Rng::new(1));
+            for _ in 0..3 {
+                if names.len() < 2 { break; }
+                let i = r.range(1, names.len() as u64 - 1) as usize;
+                let nm = &names[i];
+                if nm.is_empty() || offs[i] == 0 { continue; }
+                let (o, l) = match r.below(3) {
+                    0 => (offs[i] as usize, nm.len()),
+                    1 => (offs[i] as usize, r.below(nm.len() as u64) as usize),
+                    _ => { let k = r.below(nm.len() as u64) as usize; (offs[i] as usize + k, nm.len() - k) }
+                };
+                if o + l > strtab.len() { continue; }
+                let q = strtab[o..o + l].to_vec();
+                sink.run(x, &json!({"op": if which == "gnu" { "gnu_find" } else { "sysv_find" }, "class":class,"es":es,
+                    "hashslot":"h","symslot":"sy","strslot":"st","name":bytes_val(&q),"name_alias":[o, l],"wf":wf,"first":first}));
+            }
         }
         // the GNU table's header is a public field: lookups after the caller wrote boundary values into it
         if which == "gnu" && !qs.is_empty() && r.chance(1, 2) {
